@@ -30,9 +30,12 @@ pub fn check_total(text: &str) -> Result<(usize, usize, u64), Failure> {
         }
         n
     });
+    // (the lines of a disabled region count as well: the region is one tree token, the raw lexer may
+    // swallow it in one unterminated construct, and it is skipped one line at a time)
+    let ntok = ntok.max(text.lines().count());
     let bound = WORK_FACTOR * (ntok as u64 + 1) + WORK_CONST;
     if steps > bound {
-        return Err(Failure::plain("C02.work-bound", format!("{steps} parser steps for {ntok} tokens (bound {bound})")));
+        return Err(Failure::plain("C02.work-bound", format!("{steps} parser steps for {ntok} tokens/lines (bound {bound})")));
     }
     for e in parse.errors() {
         if e.message.trim().is_empty() {
